@@ -240,6 +240,18 @@ deriving Repr, DecidableEq
 def nbr (c : Cfg) (s : List Nat) (i : Nat) : Nbr :=
   ⟨getPrev s i, s[i + 1]?, prevcByte c s i, nextcByte c s i⟩
 
+/-! ### switches for proposed repairs of `skip.rs` (default `false` = the code as it is)
+
+* `Fix.itc` — `fixes/C13-sep-itc-accepts-leading.diff`: `is_itc!(@first …)` asks "`prevc` IS a digit" (as `is_it!` does)
+  instead of "`prevc` is NOT a digit"; repairs the findings sep-itc-accepts-leading, sep-itc-without-leading-value and
+  C10-dbg-sep-itc-without-leading.
+* `Fix.ilc` — `fixes/C13-sep-ilc-accepts-trailing.diff`: `is_ilc!(@internal …)` uses `map_or(false, is_digit)` (as
+  `is_il!` does) instead of `map_or(true, …)`: a separator at the end of the input is not followed by a digit. -/
+namespace Fix
+def itc : Bool := false
+def ilc : Bool := false
+end Fix
+
 /-- `is_x!(@first …)` / `is_x!(@internal …)`, transcribed macro by macro -/
 def Pred.holds (c : Cfg) (n : Nbr) (first : Bool) : Pred → Bool
   | .i => if first then n.prev.any c.isDigit && n.next.any c.isDigit else n.next.any c.isDigit
@@ -254,12 +266,14 @@ def Pred.holds (c : Cfg) (n : Nbr) (first : Bool) : Pred → Bool
              (if n.prev.any c.isDigit then n.next.any c.isDigit else n.prev.all (fun x => !c.isSep x))
            else n.next.any c.isDigit
   | .ilc => if first then n.nextc.any c.isDigit || n.prevc.all (fun x => !c.isDigit x)
-            else n.nextc.all c.isDigit
+            else (if Fix.ilc then n.nextc.any c.isDigit else n.nextc.all c.isDigit)
   | .it => if first then
              (if n.prev.any c.isDigit then n.next.all (fun x => !c.isSep x)
               else n.next.all (fun x => !c.isDigit x && !c.isSep x))
            else n.next.all (fun x => !c.isSep x)
-  | .itc => if first then n.prevc.any (fun x => !c.isDigit x) || n.nextc.all (fun x => !c.isDigit x)
+  | .itc => if first then
+              (if Fix.itc then n.prevc.any c.isDigit else n.prevc.any (fun x => !c.isDigit x))
+                || n.nextc.all (fun x => !c.isDigit x)
             else true
   | .lt => if first then
              !n.prev.any c.isSep && !n.next.any c.isSep && !(n.prev.any c.isDigit && n.next.any c.isDigit)
